@@ -102,12 +102,22 @@ def run_subprocess(acc):
     env_unbuf = dict(env_default, PYTHONUNBUFFERED='1')
     env = env_default
     # (... limited: the run ends because -n was reached, which is another way out of the generation loop than an empty queue)
+    # (... oldsav: a new session is started - no --load - while the save file of an earlier session of the same name, quit by the user after a
+    # few guesses, is still there)
     conds = ['devnull', 'closed', 'pipe_eof', 'pipe_open', 'pipe_status_then_eof', 'pipe_open unbuffered', 'pipe_eof unbuffered',
-             'pipe_open limited', 'devnull limited', 'pipe_open limited unbuffered']
+             'pipe_open limited', 'devnull limited', 'pipe_open limited unbuffered', 'devnull oldsav', 'pipe_eof oldsav', 'pipe_open oldsav', 'closed oldsav']
     base_cmd = cmd
+    Q0 = S.run_guesser(td, ['-r', 'v'], quit_after=3)
+    old_sav, old_omn = Q0.sav_raw, Q0.omn
+    S.clear_session(td)
     for cond in conds:
         acc.evals += 1
         kw = {}
+        if ' oldsav' in cond:
+            if old_sav is None:
+                acc.count('no_old_save_file_for_the_oldsav_conditions')
+                continue
+            S.set_session(td, old_sav, old_omn)
         env = env_unbuf if cond.endswith(' unbuffered') else env_default
         label = cond + ('' if cond.endswith(' unbuffered') else ' (default output buffering)')
         limited = ' limited' in cond
